@@ -49,6 +49,11 @@ func verifH_C04_steps() {
 			verifAssert(errors.Is(err, verifErrStore), "C04: marker Save failed but another error is reported")
 			verifAssert(len(conn.wlog) == 0, "C04: PUBREC written although the marker could not be saved")
 			verifAssert(len(c.pendingAck) == 4, "C04: pending PUBREC dropped although the marker could not be saved")
+			// the next call recovers: marker saved, then PUBREC (here on a new connection)
+			c.toOffline()
+			after := verifNextConnection(c, store, "C04")
+			verifAssert(store.find(key) >= 0, "C04: no marker after the retry")
+			verifAssert(verifBytesEq(after, []byte{0x50, 2, byte(id >> 8), byte(id)}), "C07: after a failed marker Save the retry does not send exactly the owed PUBREC")
 			verifReach("marker-save-failed")
 			return
 		}
@@ -62,6 +67,8 @@ func verifH_C04_steps() {
 		} else {
 			verifAssert(len(c.pendingAck) == 4 && verifBytesEq(c.pendingAck, want), "C04: PUBREC lost after a failed write (must be retried on the next connection)")
 			verifAssert(verifIsOffline(c), "C04: failed PUBREC write did not take the client offline")
+			after := verifNextConnection(c, store, "C07")
+			verifAssert(verifBytesEq(after, want), "C07: the PUBREC whose write failed is not sent (exactly once, first) on the next connection")
 			verifReach("pubrec-write-failed")
 		}
 	case 1: // PUBREL ends the cycle
@@ -76,6 +83,8 @@ func verifH_C04_steps() {
 			verifAssert(len(conn.wlog) == 0, "C04: PUBCOMP written although the marker could not be deleted (the broker will not repeat PUBREL, the identifier stays blocked)")
 			verifAssert(store.find(key) >= 0, "C04: marker gone although Delete failed")
 			verifAssert(verifIsOffline(c), "C04: failed marker Delete must reset the connection so that the broker repeats PUBREL")
+			after := verifNextConnection(c, store, "C04")
+			verifAssert(len(after) == 0, "C04: PUBCOMP sent on the next connection although the marker was never deleted (the broker may reuse the identifier while the stale marker suppresses the new message)")
 			verifReach("marker-delete-failed")
 			return
 		}
@@ -88,6 +97,8 @@ func verifH_C04_steps() {
 		} else {
 			verifAssert(len(c.pendingAck) == 4 && verifBytesEq(c.pendingAck, want), "C04: PUBCOMP lost after a failed write (must be retried on the next connection)")
 			verifAssert(verifIsOffline(c), "C04: failed PUBCOMP write did not take the client offline")
+			after := verifNextConnection(c, store, "C04")
+			verifAssert(verifBytesEq(after, want), "C04: the PUBCOMP whose write failed is not sent on the next connection")
 			verifReach("pubcomp-write-failed")
 		}
 	}
